@@ -500,6 +500,14 @@ static void violation(const Case& c, const Built* b, const std::string& kind, co
     g_viol.push_back({key, what + " | " + (b ? frame_dump(*b) : std::string()) + " | case " + spec_of(c), spec_of(c)});
 }
 
+// Every generated case is a legal frame description (sizes <= 64 KiB, alignments <= 64, register masks within the
+// architecture's files, conventions of the architecture): a stage that refuses it leaves the user without a frame, and a
+// refusal that nobody looks at silently removes the case from everything judged below.
+// err = "<stage>:<error name>"; key = <arch>:refused:<stage>:<error>:<family>
+static void refusal(const Case& c, const Built* b, const std::string& err) {
+  violation(c, b, "refused:" + err, "asmjit refuses a legal frame: " + err);
+}
+
 // ---------------------------------------------------------------------------------------------
 // Arithmetic checks on the accessors: areas pairwise disjoint, offsets aligned, sizes consistent
 // ---------------------------------------------------------------------------------------------
@@ -559,7 +567,7 @@ static const uint8_t kBackground = 0xB6;  // untouched test stack / caller frame
 struct Counters {
   uint64_t frames = 0, executed = 0, rejected = 0, signals = 0, timeouts = 0, arith_only = 0, a64_emitted = 0;
   uint64_t stack_args_read = 0, regs_compared = 0, canary_bytes = 0;
-  std::map<std::string, uint64_t> rejects, by_engine, by_conv;
+  std::map<std::string, uint64_t> rejects, by_engine, by_conv, by_entry_align;
   std::set<std::string> classes;
   std::vector<std::string> samples;
 };
@@ -719,7 +727,11 @@ static void execute_x86(const Case& c, const Built& b, const Assembled& as) {
   memcpy(fn, as.code.data(), as.code.size());
   g_code_pos = (g_code_pos + as.code.size() + 63) & ~size_t(63);
   // caller frame
-  uint32_t natural = f.natural_stack_alignment();
+  // alignment of SP at the call instruction as the ABI documents give it (NOT FuncFrame::natural_stack_alignment(), which is
+  // asmjit's own claim and part of what is under test): x86-64 SysV/Microsoft: 16; i386 (SysV gABI, cdecl/stdcall/fastcall/
+  // thiscall on Windows): 4; light-call conventions have no document, CallConv's own value is all there is
+  uint32_t natural = ci.abi == ABI_LIGHT ? f.natural_stack_alignment() : is32 ? 4u : 16u;
+  g_cnt.by_entry_align[std::string(kArchName[c.arch]) + ":" + (ci.abi == ABI_LIGHT ? "light-own" : "abi") + ":" + std::to_string(natural)]++;
   uint32_t arg_bytes = b.func.arg_stack_size();
   for (const SArg& s : b.sargs) arg_bytes = std::max<uint32_t>(arg_bytes, uint32_t(s.off) + std::max(s.size, rs));
   memset(g_stack, kBackground, kStackSize);
@@ -872,8 +884,10 @@ static bool emit_a64(const Case& c, const Built& b, std::string& err) {
     claims += t;
   }
   claims += "]";
-  char t[1200];
-  snprintf(t, sizeof t,
+  std::string ph = hexstr(buf.data(), pe), eh = hexstr(buf.data() + pe, buf.size() - pe), fj = jstr(frame_dump(b));
+  std::vector<char> tb(2048 + claims.size() + ph.size() + eh.size() + fj.size());   // a fixed buffer used to truncate (and so drop) records of frames with many saves
+  char* t = tb.data();
+  int tn = snprintf(t, tb.size(),
            "{\"t\":\"a64\",\"spec\":%s,\"cls\":%s,\"conv\":\"%s\",\"custom\":%d,\"light\":%d,\"fp\":%d,\"da\":%d,\"promise\":%d,"
            "\"final_align\":%u,\"cs\":%u,\"lo\":%u,\"ls\":%u,\"final_size\":%u,\"stack_adj\":%u,\"pps\":%u,"
            "\"dirty\":[%u,%u],\"pres\":[%u,%u],\"saved\":[%u,%u],\"vsz\":%u,\"has_sargs\":%d,\"claims\":%s,\"prolog\":\"%s\",\"epilog\":\"%s\",\"frame\":%s}",
@@ -882,7 +896,8 @@ static bool emit_a64(const Case& c, const Built& b, std::string& err) {
            f.stack_adjustment(), f.push_pop_save_size(), f.dirty_regs(RegGroup::kGp), f.dirty_regs(RegGroup::kVec),
            b.func.call_conv().preserved_regs(RegGroup::kGp), b.func.call_conv().preserved_regs(RegGroup::kVec),
            f.saved_regs(RegGroup::kGp), f.saved_regs(RegGroup::kVec), f.save_restore_reg_size(RegGroup::kVec), int(!b.sargs.empty()), claims.c_str(),
-           hexstr(buf.data(), pe).c_str(), hexstr(buf.data() + pe, buf.size() - pe).c_str(), jstr(frame_dump(b)).c_str());
+           ph.c_str(), eh.c_str(), fj.c_str());
+  if (tn < 0 || size_t(tn) >= tb.size()) { err = "harness: record truncated"; return false; }
   puts(t);
   return true;
 }
@@ -895,18 +910,18 @@ static bool g_noexec = false, g_dump = false;
 static void run_case(const Case& c) {
   g_cnt.frames++;
   Built b;
-  if (!build(c, b)) { g_cnt.rejected++; g_cnt.rejects[std::string(kArchName[c.arch]) + ":" + b.err]++; return; }
+  if (!build(c, b)) { g_cnt.rejected++; g_cnt.rejects[std::string(kArchName[c.arch]) + ":" + b.err]++; refusal(c, nullptr, b.err); return; }
   arith_checks(c, b);
   std::string cls = class_of(c, b);
   if (c.arch == A_A64) {
     std::string err;
-    if (!emit_a64(c, b, err)) { g_cnt.rejected++; g_cnt.rejects["a64:" + err]++; return; }
+    if (!emit_a64(c, b, err)) { g_cnt.rejected++; g_cnt.rejects["a64:" + err]++; refusal(c, &b, err); return; }
     g_cnt.a64_emitted++;
     g_cnt.by_conv[std::string("a64:") + conv_info(c).name]++;
     return;  // class is counted by the Python side once the symbolic run is conclusive
   }
   Assembled as;
-  if (!assemble_x86(c, b, as)) { g_cnt.rejected++; g_cnt.rejects[std::string(kArchName[c.arch]) + ":" + as.err]++; return; }
+  if (!assemble_x86(c, b, as)) { g_cnt.rejected++; g_cnt.rejects[std::string(kArchName[c.arch]) + ":" + as.err]++; refusal(c, &b, as.err); return; }
   g_cnt.by_conv[std::string(kArchName[c.arch]) + ":" + conv_info(c).name + (is_custom(c) ? "+custom" : "")]++;
   if (g_dump) printf("{\"t\":\"dump\",\"code\":\"%s\",\"prolog_end\":%zu,\"body_end\":%zu,\"frame\":%s}\n", hexstr(as.code.data(), as.code.size()).c_str(), as.prolog_end, as.body_end, jstr(frame_dump(b)).c_str());
 #ifndef VF_NOEXEC
@@ -1144,7 +1159,7 @@ int main(int argc, char** argv) {
     for (auto& kv : m) { if (!first) o += ","; first = false; o += jstr(kv.first) + ":" + std::to_string(kv.second); }
     o += "}";
   };
-  dump_map("rejects", g_cnt.rejects); dump_map("by_engine", g_cnt.by_engine); dump_map("by_conv", g_cnt.by_conv);
+  dump_map("rejects", g_cnt.rejects); dump_map("by_engine", g_cnt.by_engine); dump_map("by_conv", g_cnt.by_conv); dump_map("by_entry_align", g_cnt.by_entry_align);
   o += ",\"classes\":[";
   { bool first = true; char hb[24];
     for (auto& s : g_cnt.classes) { if (!first) o += ","; first = false; snprintf(hb, sizeof hb, "\"%016llx\"", (unsigned long long)fnv1a(s.data(), s.size())); o += hb; }
